@@ -1,7 +1,7 @@
 // C17 — Skeleton-blocker complexes track the abstract complex through edits and contractions.
 //
-// Model: the abstract simplicial complex as a table in[mask] over all non-empty subsets of the <= 9 vertex handles ever
-// created (handles are never reused by the library).  Every operation is applied to the model as the property text
+// Model: the abstract simplicial complex as a table in[mask] over all non-empty subsets of the <= 9 (config wide: <= 12)
+// vertex handles ever created (handles are never reused by the library).  Every operation is applied to the model as the property text
 // defines it (union with the faces of a simplex, deletion of exactly the star, image under the vertex identification),
 // and after every step the implementation is swept: contains() of every subset, the blocker set against the minimal
 // non-faces of the model, counts / ranges / connected components, and links, stars and coboundaries of random simplices.
@@ -10,28 +10,74 @@
 #include "oracle/zp_reduce.h"
 
 #include <memory>
+#include <cerrno>
+#include <sys/time.h>
+#include <sys/wait.h>
 
 namespace {
 
+typedef std::vector<double> Point;
+#ifdef C17_GEOM
+// second unit: the same histories on the geometric complex (a point attached to every vertex)
+struct Geometry_trait { typedef std::vector<double> Point; };
+typedef Gudhi::skeleton_blocker::Skeleton_blocker_simple_geometric_traits<Geometry_trait> Traits;
+typedef Gudhi::skeleton_blocker::Skeleton_blocker_geometric_complex<Traits> Complex;
+const bool kGeom = true;
+#else
 typedef Gudhi::skeleton_blocker::Skeleton_blocker_simple_traits Traits;
 typedef Gudhi::skeleton_blocker::Skeleton_blocker_complex<Traits> Complex;
+const bool kGeom = false;
+#endif
+typedef Complex::Edge_handle Edge_handle;
 typedef Complex::Vertex_handle Vertex_handle;
 typedef Complex::Root_vertex_handle Root_vertex_handle;
 typedef Complex::Simplex Simplex;
 typedef Complex::Root_simplex_handle Root_simplex;
 typedef unsigned Mask;
 
-const int kMaxHandles = 9;
-
 inline Mask bit(int v) { return 1u << v; }
 inline int pc(Mask m) { return __builtin_popcount(m); }
+inline Point point_of(int v) { return Point{double(v), 0.5 * v}; }
+
+// Runs fn() in a forked copy of the process (same device as harness/c02_pcoh/c02_common.h): used for the one call whose failure
+// mode on a defective library is undefined behaviour that kills the process, so that the case gets ONE classified violation
+// instead of a shard restart.  Verdicts depend on what the child did, never on wall-clock time: "died" = it was stopped by a
+// fault signal (SIGABRT from the sanitizers / SIGSEGV / SIGBUS / SIGFPE / SIGILL) or exited with an error status, "timeout" =
+// it used more CPU time than the budget (4 orders of magnitude above the cost of the call); anything else that happens to the
+// child (e.g. killed from outside) is "inconclusive".
+struct Guarded { enum Kind { ok, timeout, died, inconclusive } kind = ok; int sig = 0; };
+template <class F>
+Guarded guarded(F fn, int cpu_ms) {
+  fflush(stdout); fflush(stderr);
+  pid_t pid = fork();
+  if (pid < 0) { Guarded g; g.kind = Guarded::inconclusive; return g; }
+  if (pid == 0) {
+    vh::G().cur_case = -1;  // the fatal-signal hook of vh.h must not write a history record from the child
+    signal(SIGVTALRM, SIG_DFL);
+    struct itimerval tv; memset(&tv, 0, sizeof tv);
+    tv.it_value.tv_sec = cpu_ms / 1000; tv.it_value.tv_usec = (cpu_ms % 1000) * 1000;
+    setitimer(ITIMER_VIRTUAL, &tv, nullptr);  // CPU time of the child only
+    fn();
+    _exit(0);
+  }
+  int st = 0;
+  Guarded g;
+  while (waitpid(pid, &st, 0) < 0) { if (errno != EINTR) { g.kind = Guarded::inconclusive; return g; } }
+  if (WIFEXITED(st)) { g.kind = WEXITSTATUS(st) == 0 ? Guarded::ok : Guarded::died; return g; }
+  g.sig = WIFSIGNALED(st) ? WTERMSIG(st) : 0;
+  g.kind = g.sig == SIGVTALRM ? Guarded::timeout
+         : (g.sig == SIGABRT || g.sig == SIGSEGV || g.sig == SIGBUS || g.sig == SIGFPE || g.sig == SIGILL) ? Guarded::died
+         : Guarded::inconclusive;
+  return g;
+}
 
 // ------------------------------------------------------------------------------------------------ model
 struct Model {
   int N = 0;             // number of vertex handles ever created
   std::vector<char> in;  // in[mask], mask in [1, 2^N)
+  std::vector<Point> pt; // the point given to each handle when it was created (geometric unit; empty = default constructed)
   Model() : in(1, 0) {}
-  void add_vertex() { ++N; in.resize(size_t(1) << N, 0); in[bit(N - 1)] = 1; }
+  void add_vertex(const Point& p = Point()) { ++N; in.resize(size_t(1) << N, 0); in[bit(N - 1)] = 1; pt.push_back(p); }
   bool has(Mask m) const { return m != 0 && m < in.size() && in[m]; }
   Mask alive() const { Mask a = 0; for (int v = 0; v < N; ++v) if (in[bit(v)]) a |= bit(v); return a; }
   void add_edge(int a, int b) { in[bit(a) | bit(b)] = 1; }
@@ -217,6 +263,93 @@ bool check_structure(vh::Case& c, const Complex& cx, const Model& M, Fail& f) {
     if (cx.num_simplices(d) != M.nsimplices(d)) { f = {"simplices.num_simplices_dim", "count_differs", "num_simplices(" + vh::str(d) + ")=" + vh::str(cx.num_simplices(d)) + " want " + vh::str(M.nsimplices(d))}; return false; }
   c.count("cmp.num_connected_components");
   if (cx.num_connected_components() != M.components()) { f = {"components.num_connected_components", "count_differs", "num_connected_components=" + vh::str(cx.num_connected_components()) + " want " + vh::str(M.components())}; return false; }
+  // --- triangles: triangle_range(), num_triangles(), triangle_range(v)
+  std::vector<Mask> wantt, gott;
+  for (Mask s = 1; s < M.in.size(); ++s) if (M.in[s] && pc(s) == 3) wantt.push_back(s);
+  for (const auto& t : cx.triangle_range()) { Mask m; if (!mask_of(t, N, m) || t.dimension() != 2) { f = {"triangles.range", "not_a_triangle_on_known_vertices", "triangle_range lists a foreign simplex"}; return false; } gott.push_back(m); }
+  std::sort(gott.begin(), gott.end());
+  c.count("cmp.triangle_range");
+  if (std::adjacent_find(gott.begin(), gott.end()) != gott.end()) { f = {"triangles.range", "duplicate_triangle", "triangle_range: " + show(gott)}; return false; }
+  if (gott != wantt) { f = {"triangles.range", gott.size() > wantt.size() ? "non_triangle_listed" : "set_differs", "triangle_range: " + show(gott) + "| want " + show(wantt)}; return false; }
+  if ((size_t)cx.num_triangles() != wantt.size()) { f = {"triangles.num_triangles", "count_differs", "num_triangles=" + vh::str(cx.num_triangles()) + " want " + vh::str(wantt.size())}; return false; }
+  // --- around every vertex: vertex_range(v), edge_range(v), triangle_range(v)
+  for (int v = 0; v < N; ++v) if (alive & bit(v)) {
+    Mask wn = 0; for (int u = 0; u < N; ++u) if (u != v && M.in[bit(u) | bit(v)]) wn |= bit(u);
+    Mask nb = 0; int cnt = 0; bool bad = false;
+    for (auto u : cx.vertex_range(Vertex_handle(v))) { if (u.vertex < 0 || u.vertex >= N) bad = true; else nb |= bit(u.vertex); ++cnt; }
+    c.count("cmp.vertex_range_around_vertex");
+    if (bad || nb != wn || cnt != pc(wn)) { f = {"vertices.range_around_vertex", "set_differs", "vertex_range(" + vh::str(v) + "): " + show(nb) + " (" + vh::str(cnt) + " items) want " + show(wn)}; return false; }
+    nb = 0; cnt = 0;
+    for (auto e : cx.edge_range(Vertex_handle(v))) {
+      int a = cx.first_vertex(e).vertex, b = cx.second_vertex(e).vertex;
+      if ((a != v && b != v) || a == b || a < 0 || b < 0 || a >= N || b >= N) bad = true; else nb |= bit(a == v ? b : a);
+      ++cnt;
+    }
+    c.count("cmp.edge_range_around_vertex");
+    if (bad || nb != wn || cnt != pc(wn)) { f = {"edges.range_around_vertex", bad ? "edge_not_through_vertex" : "set_differs", "edge_range(" + vh::str(v) + "): other endpoints " + show(nb) + " (" + vh::str(cnt) + " items) want " + show(wn)}; return false; }
+    std::vector<Mask> gv, wv;
+    for (const auto& t : cx.triangle_range(Vertex_handle(v))) { Mask m = 0; if (!mask_of(t, N, m)) m = ~0u; gv.push_back(m); }
+    for (Mask t : wantt) if (t & bit(v)) wv.push_back(t);
+    std::sort(gv.begin(), gv.end());
+    c.count("cmp.triangle_range_around_vertex");
+    if (gv != wv) { f = {"triangles.range_around_vertex", gv.size() > wv.size() ? "extra_or_duplicate" : "set_differs", "triangle_range(" + vh::str(v) + "): " + show(gv) + "| want " + show(wv)}; return false; }
+  }
+  // --- get_vertices of every edge handle
+  for (auto e : cx.edge_range()) {
+    int a = cx.first_vertex(e).vertex, b = cx.second_vertex(e).vertex;
+    Mask m = 0; Simplex gvs = cx.get_vertices(e);
+    c.count("cmp.get_vertices");
+    if (!mask_of(gvs, N, m) || m != (bit(a) | bit(b))) { f = {"edges.get_vertices", "differs_from_endpoints", "get_vertices(edge " + vh::str(a) + "," + vh::str(b) + ")=" + show(m)}; return false; }
+  }
+#ifdef C17_GEOM
+  // --- the point of every vertex is the one it was created with
+  for (int v = 0; v < N; ++v) if (alive & bit(v)) {
+    c.count("cmp.point");
+    if (cx.point(Vertex_handle(v)) != M.pt[v] || cx.point(Root_vertex_handle(v)) != M.pt[v]) { f = {"points.point", M.pt[v].empty() ? "default_point_changed" : "given_point_changed", "point(" + vh::str(v) + ") has " + vh::str(cx.point(Vertex_handle(v)).size()) + " coordinates"}; return false; }
+  }
+#endif
+  return true;
+}
+
+// a link complex against the model: vertices, membership of every subset of its vertices (through root identifiers), blockers
+template <class Link>
+bool check_link(vh::Case& c, const Link& L, Mask sg, const Model& M, const std::string& cls, Fail& f) {
+  const int N = M.N;
+  Mask lv = 0, wlv = 0;
+  for (int v = 0; v < N; ++v) if (L.contains_vertex(Root_vertex_handle(v))) lv |= bit(v);
+  for (int v = 0; v < N; ++v) if (!(sg & bit(v)) && M.in[sg | bit(v)]) wlv |= bit(v);
+  if (lv != wlv || L.num_vertices() != pc(wlv)) { f = {"local.link_vertices", cls, "link(" + show(sg) + ") vertices " + show(lv) + " want " + show(wlv)}; return false; }
+  std::vector<Mask> wbl;
+  for (Mask t = lv; t; t = (t - 1) & lv) {
+    Root_simplex rs; for (int v = 0; v < N; ++v) if (t & bit(v)) rs.add_vertex(Root_vertex_handle(v));
+    auto loc = L.get_simplex_address(rs);
+    if (!loc) { f = {"local.link_contains", cls + ",no_address", "no local address for " + show(t)}; return false; }
+    bool g = L.contains(*loc), w = M.in[t | sg];
+    c.count("cmp.link_contains");
+    if (g != w) { f = {"local.link_contains", cls + (w ? ",lost_simplex" : ",extra_simplex"), "link(" + show(sg) + ").contains(" + show(t) + ")=" + vh::str(g)}; return false; }
+    if (pc(t) >= 3 && !w) {  // minimal non-face of the link?
+      bool minimal = true;
+      for (int v = 0; v < N; ++v) if ((t & bit(v)) && !M.in[(t & ~bit(v)) | sg]) minimal = false;
+      if (minimal) wbl.push_back(t);
+    }
+  }
+  std::vector<Mask> gbl;
+  for (auto b : L.const_blocker_range()) {
+    Mask m = 0; bool ok = true;
+    for (auto x : *b) { int id = L.get_id(x).vertex; if (id < 0 || id >= N) ok = false; else m |= bit(id); }
+    gbl.push_back(ok ? m : ~0u);
+  }
+  std::sort(gbl.begin(), gbl.end()); std::sort(wbl.begin(), wbl.end());
+  c.count("cmp.link_blockers");
+  if (gbl != wbl) { f = {"local.link_blockers", cls, "link(" + show(sg) + ") blockers " + show(gbl) + "| minimal non-faces of the link " + show(wbl)}; return false; }
+#ifdef C17_GEOM
+  // the link of the geometric complex carries the points of the parent
+  for (auto u : L.vertex_range()) {
+    int id = L.get_id(u).vertex;
+    c.count("cmp.link_point");
+    if (id < 0 || id >= N || L.point(u) != M.pt[id]) { f = {"points.link_point", cls, "link(" + show(sg) + "): point of vertex " + vh::str(id)}; return false; }
+  }
+#endif
   return true;
 }
 
@@ -251,37 +384,25 @@ bool check_local(vh::Case& c, const Complex& cx, const Model& M, Fail& f) {
     }
     {
       auto L = cx.link(sigma);
-      Mask lv = 0, wlv = 0;
-      for (int v = 0; v < N; ++v) if (L.contains_vertex(Root_vertex_handle(v))) lv |= bit(v);
-      for (int v = 0; v < N; ++v) if (!(sg & bit(v)) && M.in[sg | bit(v)]) wlv |= bit(v);
       c.count("cmp.link");
       std::string cls = pc(sg) == 1 ? "of_vertex" : pc(sg) == 2 ? "of_edge" : "of_simplex";
-      if (lv != wlv || L.num_vertices() != pc(wlv)) { f = {"local.link_vertices", cls, "link(" + show(sg) + ") vertices " + show(lv) + " want " + show(wlv)}; return false; }
-      // membership of every subset of the link's vertices, through root identifiers
-      std::vector<Mask> wbl;
-      for (Mask t = lv; t; t = (t - 1) & lv) {
-        Root_simplex rs; for (int v = 0; v < N; ++v) if (t & bit(v)) rs.add_vertex(Root_vertex_handle(v));
-        auto loc = L.get_simplex_address(rs);
-        if (!loc) { f = {"local.link_contains", cls + ",no_address", "no local address for " + show(t)}; return false; }
-        bool g = L.contains(*loc), w = M.in[t | sg];
-        c.count("cmp.link_contains");
-        if (g != w) { f = {"local.link_contains", cls + (w ? ",lost_simplex" : ",extra_simplex"), "link(" + show(sg) + ").contains(" + show(t) + ")=" + vh::str(g)}; return false; }
-        if (pc(t) >= 3 && !w) {  // minimal non-face of the link?
-          bool minimal = true;
-          for (int v = 0; v < N; ++v) if ((t & bit(v)) && !M.in[(t & ~bit(v)) | sg]) minimal = false;
-          if (minimal) wbl.push_back(t);
-        }
-      }
-      std::vector<Mask> gbl;
-      for (auto b : L.const_blocker_range()) {
-        Mask m = 0; bool ok = true;
-        for (auto x : *b) { int id = L.get_id(x).vertex; if (id < 0 || id >= N) ok = false; else m |= bit(id); }
-        gbl.push_back(ok ? m : ~0u);
-      }
-      std::sort(gbl.begin(), gbl.end()); std::sort(wbl.begin(), wbl.end());
-      c.count("cmp.link_blockers");
-      if (gbl != wbl) { f = {"local.link_blockers", cls, "link(" + show(sg) + ") blockers " + show(gbl) + "| minimal non-faces of the link " + show(wbl)}; return false; }
+      if (!check_link(c, L, sg, M, cls, f)) return false;
     }
+  }
+  // the Edge_handle overloads: link(e) and link_condition(e) of random edges
+  std::vector<Mask> edges; for (Mask s : simp) if (pc(s) == 2) edges.push_back(s);
+  for (int rep = 0; rep < 2 && !edges.empty(); ++rep) {
+    Mask eg = r.pick(edges);
+    int a = __builtin_ctz(eg), b = 31 - __builtin_clz(eg);
+    if (r.chance(1, 2)) std::swap(a, b);
+    auto eh = cx[std::make_pair(Vertex_handle(a), Vertex_handle(b))];
+    if (!eh) { f = {"edges.handle", "no_handle_for_present_edge", "operator[] returned no edge for " + show(eg)}; return false; }
+    bool lc = M.link_condition(a, b), glc = cx.link_condition(*eh);
+    c.count("cmp.link_condition_edge_handle");
+    if (glc != lc) { f = {"local.link_condition_edge_handle", lc ? "holds_reported_violated" : "violated_reported_holding", "link_condition(edge " + show(eg) + ")=" + vh::str(glc)}; return false; }
+    auto L = cx.link(*eh);
+    c.count("cmp.link_edge_handle");
+    if (!check_link(c, L, eg, M, "of_edge_handle", f)) return false;
   }
   return true;
 }
@@ -296,6 +417,8 @@ struct Run {
   std::vector<char> obs;      // last contains() sweep of the implementation
   size_t peak_blockers = 0;
   bool meaningful_edit = false;
+  int max_handles = 9;        // handles per history (config wide: 12)
+  bool wide = false;
   explicit Run(vh::Case& c_) : c(c_) {}
 
   void sweep() {
@@ -353,6 +476,8 @@ struct Run {
     if (nb == 0) c.count("state.flag_complex"); else c.count("state.with_blockers");
     if (M.alive() == 0) c.count("state.empty_complex");
     if (M.dimension() >= 3) c.count("state.dimension_ge_3");
+    if (M.N > 9) c.count("state.handles_gt_9");
+    if (pc(M.alive()) < M.N) c.count("state.with_removed_vertices");
     return true;
   }
 
@@ -370,16 +495,63 @@ struct Run {
   Mask random_subset(vh::Rng& r, const std::vector<int>& pool, int size) { std::vector<int> p = pool; r.shuffle(p); Mask m = 0; for (int i = 0; i < size && i < (int)p.size(); ++i) m |= bit(p[i]); return m; }
 
   // ---------------- initial state
+  // n vertices with their points (geometric unit) / without (abstract unit)
+  void new_complex_with_vertices(int n) {
+    vh::Rng& r = c.rng;
+#ifdef C17_GEOM
+    std::vector<Point> pts; for (int i = 0; i < n; ++i) pts.push_back(point_of(i));
+    if (r.chance(1, 2)) {
+      c.log("new Complex(" + vh::str(n) + " points)");
+      cx.reset(new Complex(n, pts.begin(), pts.end()));
+    } else {
+      c.log("new Complex() + " + vh::str(n) + " x add_vertex(point)");
+      cx.reset(new Complex());
+      for (int i = 0; i < n; ++i) cx->add_vertex(pts[i]);
+    }
+    for (int i = 0; i < n; ++i) M.add_vertex(pts[i]);
+#else
+    (void)r;
+    c.log("new Complex(" + vh::str(n) + ")");
+    cx.reset(new Complex(n));
+    for (int i = 0; i < n; ++i) M.add_vertex();
+#endif
+  }
+  // the two constructors from simplices (a list of all simplices / the top faces), with the is_flag_complex option
+  void complex_from_simplices(bool from_tops, const std::vector<Mask>& tops, int n, bool flag_option) {
+    vh::Rng& r = c.rng;
+    std::vector<Point> pts; for (int i = 0; i < n; ++i) pts.push_back(point_of(i));
+    std::string l = from_tops ? "make_complex_from_top_faces" : "Complex(simplex list) closure of";
+    if (flag_option) l += " [is_flag_complex=true]";
+    for (Mask t : tops) l += " " + show(t);
+    c.log(l);
+    if (from_tops) {
+      std::vector<Simplex> ts; for (Mask t : tops) ts.push_back(simplex_of(t));
+      r.shuffle(ts);
+#ifdef C17_GEOM
+      cx.reset(new Complex(Gudhi::skeleton_blocker::make_complex_from_top_faces<Complex>(ts.begin(), ts.end(), pts.begin(), pts.end(), flag_option)));
+#else
+      cx.reset(new Complex(Gudhi::skeleton_blocker::make_complex_from_top_faces<Complex>(ts.begin(), ts.end(), flag_option)));
+#endif
+    } else {
+      std::vector<Simplex> all; for (Mask s = 1; s < M.in.size(); ++s) if (M.in[s]) all.push_back(simplex_of(s));
+      r.shuffle(all);
+#ifdef C17_GEOM
+      cx.reset(new Complex(all.begin(), all.end(), pts.begin(), pts.end(), flag_option));
+#else
+      cx.reset(new Complex(all.begin(), all.end(), flag_option));
+#endif
+    }
+    if (kGeom) for (int i = 0; i < n; ++i) M.pt[i] = pts[i];
+  }
+
   bool build_initial() {
     vh::Rng& r = c.rng;
-    int n = 3 + (int)r.below(6);  // 3..8
+    int n = wide ? 8 + (int)r.below(max_handles - 8) : 3 + (int)r.below(6);  // 3..8 (wide: 8..11)
     unsigned route = (unsigned)r.below(100);
-    if (route < 62) {
+    static const unsigned dens[] = {30, 50, 70, 85, 100};
+    if (route < 56) {
       // arbitrary 1-skeleton, then a random valid blocker set
-      c.log("new Complex(" + vh::str(n) + ")");
-      cx.reset(new Complex(n));
-      for (int i = 0; i < n; ++i) M.add_vertex();
-      static const unsigned dens[] = {30, 50, 70, 85, 100};
+      new_complex_with_vertices(n);
       unsigned p = dens[r.below(5)];
       for (int a = 0; a < n; ++a) for (int b = a + 1; b < n; ++b) if (r.below(100) < p) {
         c.log("add_edge_without_blockers " + vh::str(a) + " " + vh::str(b));
@@ -403,6 +575,21 @@ struct Run {
         c.count("op.add_blocker");
         if (!observe("op=add_blocker")) return false;
       }
+    } else if (route < 64) {
+      // the clique complex of a random graph (a flag complex by construction) through the constructors from simplices,
+      // told that it is a flag complex
+      for (int i = 0; i < n; ++i) M.add_vertex();
+      unsigned p = dens[r.below(5)];
+      std::vector<Mask> absent;
+      for (int a = 0; a < n; ++a) for (int b = a + 1; b < n; ++b) if (r.below(100) >= p) absent.push_back(bit(a) | bit(b));
+      for (Mask s = 1; s < M.in.size(); ++s) { bool clique = true; for (Mask e : absent) if ((s & e) == e) clique = false; M.in[s] = clique; }
+      std::vector<Mask> tops;
+      for (Mask s = 1; s < M.in.size(); ++s) if (M.in[s]) { bool top = true; for (int v = 0; v < n; ++v) if (!(s & bit(v)) && M.in[s | bit(v)]) top = false; if (top) tops.push_back(s); }
+      bool from_tops = r.chance(1, 2);
+      complex_from_simplices(from_tops, tops, n, true);
+      c.count("init.clique_complex");
+      c.count(from_tops ? "init.flag_option.top_faces" : "init.flag_option.simplex_list");
+      if (!observe("op=init.clique_complex,is_flag_complex")) return false;
     } else {
       // from a list of simplices: random top faces
       int nt = 1 + (int)r.below(6);
@@ -413,22 +600,13 @@ struct Run {
       for (int i = 0; i < n; ++i) M.add_vertex();
       std::fill(M.in.begin(), M.in.end(), 0);
       for (Mask t : tops) M.add_simplex(t);
-      if (route < 82) {
-        std::vector<Simplex> ts; std::string l = "make_complex_from_top_faces";
-        for (Mask t : tops) { ts.push_back(simplex_of(t)); l += " " + show(t); }
-        c.log(l);
-        cx.reset(new Complex(Gudhi::skeleton_blocker::make_complex_from_top_faces<Complex>(ts.begin(), ts.end())));
-        c.count("init.from_top_faces");
-      } else {
-        std::vector<Simplex> all; std::string l = "Complex(simplex list) closure of";
-        for (Mask t : tops) l += " " + show(t);
-        for (Mask s = 1; s < M.in.size(); ++s) if (M.in[s]) all.push_back(simplex_of(s));
-        r.shuffle(all);
-        c.log(l);
-        cx.reset(new Complex(all.begin(), all.end()));
-        c.count("init.from_simplex_list");
-      }
-      if (!observe("op=init.from_simplices")) return false;
+      // is_flag_complex may be passed when the complex has no minimal non-face of dimension >= 2
+      bool flag_option = M.blockers().empty() && r.chance(1, 2);
+      bool from_tops = route < 83;
+      complex_from_simplices(from_tops, tops, n, flag_option);
+      c.count(from_tops ? "init.from_top_faces" : "init.from_simplex_list");
+      if (flag_option) c.count(from_tops ? "init.flag_option.top_faces" : "init.flag_option.simplex_list");
+      if (!observe(flag_option ? "op=init.from_simplices,is_flag_complex" : "op=init.from_simplices")) return false;
     }
     return true;
   }
@@ -439,40 +617,107 @@ struct Run {
     unsigned op = (unsigned)r.below(100);
     std::vector<int> av = alive_list();
     std::vector<Mask> bl = M.blockers();
-    if (op < 7) {
-      if (M.N >= kMaxHandles) { c.count("skip.add_vertex_cap"); return true; }
-      c.log("add_vertex");
-      Vertex_handle v = cx->add_vertex();
-      M.add_vertex();
+    if (op < 6) {
+      if (M.N >= max_handles) { c.count("skip.add_vertex_cap"); return true; }
+      Vertex_handle v;
+#ifdef C17_GEOM
+      if (r.chance(1, 2)) {
+        c.log("add_vertex(point)");
+        v = cx->add_vertex(point_of(M.N));
+        M.add_vertex(point_of(M.N));
+      } else  // NOLINT
+#endif
+      {
+        c.log("add_vertex");
+        v = cx->add_vertex();
+        M.add_vertex();
+      }
       c.count("op.add_vertex");
       if (v.vertex != M.N - 1) { c.violation("vertices.add_vertex_return", "op=add_vertex,not_next_handle", "returned " + vh::str(v.vertex)); return false; }
       return observe("op=add_vertex");
     }
-    if (op < 27) {
-      // add an absent edge, with (add_edge) or without (add_edge_without_blockers) blockers on the triangles it closes
+    if (op < 28) {
+      // add_edge / add_edge_without_blockers: an absent edge (blockers, or not, on the triangles it closes), an edge that is
+      // already there (nothing changes), or the overloads taking a simplex (all its edges, one after the other)
+      const bool with_blockers = r.chance(1, 2);
+      const std::string fn = with_blockers ? "add_edge" : "add_edge_without_blockers";
+      unsigned mode = (unsigned)r.below(10);
+      if (mode >= 8) {
+        if (av.size() < 2) { c.count("skip.add_edge_few_vertices"); return true; }
+        Mask s = random_subset(r, av, 2 + (int)r.below(std::min<size_t>(av.size() - 1, 4)));
+        int n_absent = 0;
+        for (int a = 0; a < M.N; ++a) for (int b = a + 1; b < M.N; ++b) if ((s & bit(a)) && (s & bit(b)) && !M.in[bit(a) | bit(b)]) ++n_absent;
+        c.log(fn + " simplex " + show(s));
+        if (with_blockers) cx->add_edge(simplex_of(s)); else cx->add_edge_without_blockers(simplex_of(s));
+        for (int a = 0; a < M.N; ++a) for (int b = a + 1; b < M.N; ++b) if ((s & bit(a)) && (s & bit(b)) && !M.in[bit(a) | bit(b)]) { if (with_blockers) M.add_edge(a, b); else M.add_edge_flag(a, b); }
+        std::string cls = n_absent == 0 ? "all_edges_present" : n_absent == pc(s) * (pc(s) - 1) / 2 ? "no_edge_present" : "some_edges_present";
+        c.count("op." + fn + ".simplex_overload");
+        c.count("op." + fn + ".simplex_overload." + cls);
+        return observe("op=" + fn + ",simplex_overload," + cls);
+      }
+      const bool present = mode >= 6;
       std::vector<std::pair<int, int>> cand;
-      for (size_t i = 0; i < av.size(); ++i) for (size_t j = i + 1; j < av.size(); ++j) if (!M.in[bit(av[i]) | bit(av[j])]) cand.emplace_back(av[i], av[j]);
-      if (cand.empty()) { c.count("skip.add_edge_complete_graph"); return true; }
+      for (size_t i = 0; i < av.size(); ++i) for (size_t j = i + 1; j < av.size(); ++j) if (bool(M.in[bit(av[i]) | bit(av[j])]) == present) cand.emplace_back(av[i], av[j]);
+      if (cand.empty()) { c.count(present ? "skip.add_edge_no_edge" : "skip.add_edge_complete_graph"); return true; }
       auto e = r.pick(cand);
       if (r.chance(1, 2)) std::swap(e.first, e.second);
       int closes = 0; for (int v : av) if (M.in[bit(v) | bit(e.first)] && M.in[bit(v) | bit(e.second)]) ++closes;
-      if (op < 17) {
-        c.log("add_edge " + vh::str(e.first) + " " + vh::str(e.second));
-        cx->add_edge(Vertex_handle(e.first), Vertex_handle(e.second));
-        M.add_edge(e.first, e.second);
-        c.count(closes ? "op.add_edge.closing_triangles" : "op.add_edge.plain");
-        if (closes) meaningful_edit = true;
-        return observe(std::string("op=add_edge,") + (closes ? "closing_triangles" : "plain"));
+      std::string cls = present ? "already_present" : closes ? "closing_triangles" : "plain";
+      c.log(fn + " " + vh::str(e.first) + " " + vh::str(e.second));
+      Edge_handle eh = with_blockers ? cx->add_edge(Vertex_handle(e.first), Vertex_handle(e.second)) : cx->add_edge_without_blockers(Vertex_handle(e.first), Vertex_handle(e.second));
+      if (!present) { if (with_blockers) M.add_edge(e.first, e.second); else M.add_edge_flag(e.first, e.second); }
+      c.count("op." + fn + "." + cls);
+      if (with_blockers && !present && closes) meaningful_edit = true;
+      {
+        // the returned handle is the edge between the two vertices
+        int fa = cx->first_vertex(eh).vertex, fb = cx->second_vertex(eh).vertex;
+        c.count("cmp.add_edge_return");
+        if (!((fa == e.first && fb == e.second) || (fa == e.second && fb == e.first))) { c.violation("edges.add_edge_return", "op=" + fn + "," + cls + ",handle_of_another_edge", "returned the edge " + vh::str(fa) + "," + vh::str(fb)); return false; }
       }
-      c.log("add_edge_without_blockers " + vh::str(e.first) + " " + vh::str(e.second));
-      cx->add_edge_without_blockers(Vertex_handle(e.first), Vertex_handle(e.second));
-      M.add_edge_flag(e.first, e.second);
-      c.count(closes ? "op.add_edge_without_blockers.closing_triangles" : "op.add_edge_without_blockers.plain");
-      return observe(std::string("op=add_edge_without_blockers,") + (closes ? "closing_triangles" : "plain"));
+      return observe("op=" + fn + "," + cls);
     }
-    if (op < 45) {
-      // add_simplex of an absent simplex of dimension >= 2 on present vertices
+    if (op < 48) {
+      // add_simplex of a simplex of dimension >= 2: absent on present vertices (a blocker, a superset of a blocker, a random one),
+      // with vertices that do not exist yet, or already in the complex (nothing changes)
       Mask s = 0; std::string cls;
+      unsigned kind = (unsigned)r.below(20);
+      if (kind < 3) {
+        // already there: "add a simplex and all its faces" to a complex that has them leaves the complex as it is
+        std::vector<Mask> cand = simplices_of_size(3, 32), withco;
+        if (cand.empty()) { c.count("skip.add_simplex_present_none"); return true; }
+        for (Mask t : cand) { bool co = false; for (int v = 0; v < M.N; ++v) if (!(t & bit(v)) && M.has(t | bit(v))) co = true; if (co) withco.push_back(t); }
+        s = (!withco.empty() && r.chance(2, 3)) ? r.pick(withco) : r.pick(cand);
+        bool co = std::find(withco.begin(), withco.end(), s) != withco.end();
+        c.log("add_simplex " + show(s) + " (present)");
+        cx->add_simplex(simplex_of(s));
+        c.count("op.add_simplex.already_present");
+        if (co) c.count("op.add_simplex.already_present.with_cofaces");
+        return observe("op=add_simplex,already_present");
+      }
+      if (kind < 6) {
+        // some vertices of the simplex do not exist yet: the library creates them (handles are contiguous, so every handle up
+        // to the largest one of the simplex exists afterwards)
+        int room = max_handles - M.N;
+        if (room < 1) { c.count("skip.add_simplex_new_vertex_cap"); return true; }
+        int k = 1 + (room >= 2 && r.chance(1, 3) ? 1 : 0);
+        bool gap = room >= k + 1 && r.chance(1, 4);
+        int first = M.N + (gap ? 1 : 0);
+        Mask fresh = 0; for (int i = 0; i < k; ++i) fresh |= bit(first + i);
+        int need = std::max(0, 3 - k);
+        if ((int)av.size() < need) { c.count("skip.add_simplex_few_vertices"); return true; }
+        int nb = need + (int)r.below(std::min<size_t>(av.size() - need, 2) + 1);
+        s = random_subset(r, av, nb) | fresh;
+        bool removed = pc(M.alive()) < M.N;
+        cls = std::string("new_vertex,") + (removed ? "after_removal" : "no_removal");
+        c.log("add_simplex " + show(s) + " (handles from " + vh::str(M.N) + " on do not exist yet)");
+        cx->add_simplex(simplex_of(s));
+        while (M.N < first + k) M.add_vertex();
+        M.add_simplex(s);
+        c.count(std::string("op.add_simplex.new_vertex.") + (removed ? "after_removal" : "no_removal"));
+        if (gap) c.count("op.add_simplex.new_vertex.skipping_a_handle");
+        meaningful_edit = true;
+        return observe("op=add_simplex," + cls);
+      }
       unsigned mode = (unsigned)r.below(10);
       if (!bl.empty() && mode < 5) { s = r.pick(bl); cls = "boundary_present"; }  // absent with all proper faces present = a blocker
       else if (!bl.empty() && mode < 7) {
@@ -491,17 +736,42 @@ struct Run {
       }
       bool has_coface_candidates = false;
       for (int v : av) if (!(s & bit(v))) { bool all = true; for (int u = 0; u < M.N; ++u) if ((s & bit(u)) && !M.in[bit(u) | bit(v)]) all = false; if (all) has_coface_candidates = true; }
-      c.log("add_simplex " + show(s));
-      cx->add_simplex(simplex_of(s));
+      // filling a blocker: half of the time the argument IS the blocker stored in the complex (*blocker_handle), which
+      // add_simplex removes from the blocker set while it works
+      Complex::Blocker_handle stored = nullptr;
+      if (std::binary_search(bl.begin(), bl.end(), s) && r.chance(1, 2))
+        for (auto b : cx->blocker_range()) { Mask m = 0; if (mask_of(*b, M.N, m) && m == s) stored = b; }
+      if (stored) {
+        cls += ",arg_is_stored_blocker";
+        c.log("add_simplex *blocker_handle " + show(s));
+        Complex* px = cx.get(); const size_t nsub = M.in.size();
+        auto probe = [px, stored, nsub]() { px->add_simplex(*stored); for (Mask t = 1; t < nsub; ++t) (void)px->contains(simplex_of(t)); };
+        Guarded g = guarded(probe, 20000);
+        if (g.kind == Guarded::inconclusive) { c.count("guarded.inconclusive"); g = guarded(probe, 20000); }
+        c.count("cmp.add_simplex_stored_blocker_survives");
+        if (g.kind == Guarded::died || g.kind == Guarded::timeout) {
+          c.violation("add_simplex.argument", "op=add_simplex," + cls + (g.kind == Guarded::died ? ",process_died" : ",never_returns"),
+                      "a copy of the process that ran add_simplex(*blocker_handle) and then contains() of every subset " +
+                      std::string(g.kind == Guarded::died ? (g.sig ? "died with signal " + vh::str(g.sig) : std::string("exited with an error status")) + " (a sanitizer report, if any, is in the stderr of the shard)" : "used more than 20 s of CPU time"));
+          return false;
+        }
+        // (twice inconclusive: the call is made unguarded; if it kills the process the orchestrator attributes that to this case)
+        if (g.kind == Guarded::inconclusive) c.count("guarded.inconclusive_twice");
+        cx->add_simplex(*stored);
+        c.count("op.add_simplex.arg_is_stored_blocker");
+      } else {
+        c.log("add_simplex " + show(s));
+        cx->add_simplex(simplex_of(s));
+      }
       M.add_simplex(s);
-      c.count("op.add_simplex." + cls);
+      c.count("op.add_simplex." + cls.substr(0, cls.find(',')));
       if (has_coface_candidates) c.count("op.add_simplex.with_common_neighbour");
       meaningful_edit = true;
       return observe("op=add_simplex," + cls);
     }
-    if (op < 71) {
+    if (op < 72) {
       // remove_star of a vertex / edge / simplex of dimension >= 2
-      int want_size = op < 52 ? 1 : op < 62 ? 2 : 3;
+      int want_size = op < 55 ? 1 : op < 64 ? 2 : 3;
       Mask s = 0;
       if (!bl.empty() && r.chance(1, 2)) {
         // inside a blocker of dimension >= 2 more
@@ -639,4 +909,6 @@ struct Run {
 
 VH_CONFIG("mixed", [](vh::Case& c) { Run r(c); r.run(4, 24); });
 VH_CONFIG("long", [](vh::Case& c) { Run r(c); r.run(40, 90); });
+// few histories on up to 12 vertex handles (4095 subsets swept after every step)
+VH_CONFIG("wide", [](vh::Case& c) { Run r(c); r.max_handles = 12; r.wide = true; r.run(4, 16); });
 VH_MAIN()
